@@ -1,5 +1,7 @@
 """C02 — what cif_write emits re-parses: magic-code agreement, complete column accounting, single delimiter source."""
-from ..facts import Broken, strip, const, walk, walk_eval
+import re
+
+from ..facts import Broken, strip, const, walk, walk_eval, show
 from ..interp import Interp, State, path, av_const, AV, NONZERO
 from .. import cfgq
 from ..sqlmodel import literal_text
@@ -278,3 +280,171 @@ def run(prog, chk):
             r3.ok(w, "only caller: write_char")
         else:
             r3.violation("ciffile.c", w, prog.fn(w).line, "caller:" + w, "%s is called from %s (expected only write_char)" % (w, cs))
+
+    r4 = chk.rule("R4-writer-length-contract", "what write_char hands to the delimiter-specific writers is consistent with how they use "
+                  "it: an index into the analysed text built from an analysis length is never past the terminator, and the "
+                  "success test on the number of characters emitted can be met by every string the analyser routes there", floor=3)
+    if writer_contract(prog, r4) < 3:
+        raise Broken("writer length contract: too few obligations found")
+
+
+# fields of struct cif_string_analysis_s that are lengths of (parts of) the analysed string: each is <= length, with
+# equality for single-line strings (cif_analyze_string sets them all to the string length then)
+ANALYSIS_LENGTHS = ("length", "length_first", "length_last", "length_max")
+
+
+def _lin(n, subst=None, depth=0):
+    """Linear form {symbol: coeff, '': const} of an int expression over analysis fields / parameters."""
+    n = strip(n)
+    if not isinstance(n, dict) or depth > 10:
+        return None
+    c = const(n)
+    if c is not None:
+        return {"": c}
+    p = path(n)
+    if p is not None and n.get("k") in ("ref", "member"):
+        if subst is not None and p in subst:
+            return dict(subst[p]) if subst[p] is not None else None
+        m = re.match(r"^analysis\.(\w+)$", p)
+        if m and m.group(1) in ANALYSIS_LENGTHS:
+            return {m.group(1): 1, "": 0}
+        return {p: 1, "": 0}
+    if n.get("k") == "bin" and n.get("op") in ("+", "-"):
+        a, b = _lin(n.get("lhs"), subst, depth + 1), _lin(n.get("rhs"), subst, depth + 1)
+        if a is None or b is None:
+            return None
+        out = dict(a)
+        sg = 1 if n["op"] == "+" else -1
+        for k, v in b.items():
+            out[k] = out.get(k, 0) + sg * v
+        return {k: v for k, v in out.items() if v != 0 or k == ""}
+    return None
+
+
+def _fixed_chars(fmt):
+    """(number of characters a u_fprintf format emits besides its one string conversion, has a string conversion)."""
+    fixed, i, strings = 0, 0, 0
+    while i < len(fmt):
+        if fmt[i] == "%":
+            j = i + 1
+            while j < len(fmt) and fmt[j] in "*.0123456789-+ #lh":
+                j += 1
+            conv = fmt[j] if j < len(fmt) else ""
+            if conv == "%":
+                fixed += 1
+            elif conv == "c":
+                fixed += 1
+            elif conv in ("S", "s"):
+                strings += 1
+            else:
+                return None, 0
+            i = j + 1
+        else:
+            fixed += 1
+            i += 1
+    return fixed, strings
+
+
+def writer_contract(prog, rule):
+    wc = prog.fn("write_char")
+    n_obl = 0
+    for (b, i, r, c) in wc.calls():
+        w = c.get("callee")
+        if w not in ("write_unquoted", "write_quoted", "write_triple_quoted", "write_text") or not prog.has_fn(w):
+            continue
+        fn = prog.fn(w)
+        subst = {}
+        text_param = None
+        for k, a in enumerate(c.get("args", [])):
+            if k >= len(fn.params):
+                break
+            pname = fn.params[k]["name"]
+            if path(strip(a)) == "text":
+                text_param = pname
+            else:
+                subst[pname] = _lin(a)
+        if text_param is None:
+            continue
+        # parameters re-assigned inside the writer lose their meaning
+        for (b2, i2, r2, a2) in fn.eval_sites("asg"):
+            lp = path(strip(a2.get("lhs")))
+            if lp in subst:
+                subst[lp] = None
+        # (i) indexes into the analysed text
+        for (b2, i2, r2, x) in fn.eval_sites("index"):
+            if path(strip(x.get("base"))) != text_param:
+                continue
+            lf = _lin(x.get("idx"), subst)
+            if lf is None:
+                continue
+            syms = {k: v for k, v in lf.items() if k}
+            if len(syms) == 1 and list(syms.values()) == [1] and list(syms)[0] in ANALYSIS_LENGTHS:
+                n_obl += 1
+                fld, k = list(syms)[0], lf.get("", 0)
+                key = "%s:%s[%s]" % (w, text_param, show_lin(lf))
+                if k >= 1:
+                    rule.violation(fn.file, w, x.get("l"), "index-past-terminator:%s" % w,
+                                   "%s reads %s[%s] where write_char passes `%s`: that is %s[analysis.%s %+d]; for a single-line string "
+                                   "analysis.%s equals the string length, so the read is %d element(s) past the terminator (and the "
+                                   "decision taken on it is arbitrary)" % (w, text_param, show(x.get("idx")), show(c["args"][[pp["name"] for pp in fn.params].index(path(strip(x.get("idx"))))]) if path(strip(x.get("idx"))) in [pp["name"] for pp in fn.params] else show(x.get("idx")),
+                                                                          text_param, fld, k, fld, k))
+                else:
+                    rule.ok(key, "at or before the terminator for every string")
+        # (ii) the success test on the emitted count
+        counts = {}
+        for (b2, i2, r2, a2) in fn.eval_sites("asg"):
+            rr = strip(a2.get("rhs"))
+            if isinstance(rr, dict) and rr.get("k") == "call" and rr.get("callee") == "u_fprintf" and len(rr.get("args", [])) > 1:
+                fmt = literal_text(rr["args"][1])
+                if fmt is not None:
+                    fixed, strings = _fixed_chars(fmt)
+                    if fixed is not None and strings == 1:
+                        # a precision (`%*.*S`) limits the text to that many characters
+                        prec = None
+                        if "*.*" in fmt and len(rr["args"]) > 3:
+                            prec = _lin(rr["args"][3], subst)
+                        counts[path(strip(a2.get("lhs")))] = (fixed, prec, rr)
+        for (b2, i2, r2, rt) in fn.returns():
+            e = strip(rt.get("e")) if rt.get("e") else None
+            if not isinstance(e, dict) or e.get("k") != "cond":
+                continue
+            cnd = strip(e.get("c"))
+            if not isinstance(cnd, dict) or cnd.get("k") != "bin" or cnd.get("op") not in (">=", "==", ">"):
+                continue
+            v = path(strip(cnd.get("lhs")))
+            if v not in counts or const(e.get("then")) != 0:
+                continue
+            fixed, prec, call = counts[v]
+            need = _lin(cnd.get("rhs"), subst)
+            if need is None:
+                continue
+            emitted = dict(prec) if prec is not None else {"length": 1, "": 0}
+            emitted[""] = emitted.get("", 0) + fixed
+            syms_n = {k: c2 for k, c2 in need.items() if k}
+            syms_e = {k: c2 for k, c2 in emitted.items() if k}
+            if len(syms_n) != 1 or list(syms_n.values()) != [1] or list(syms_n)[0] not in ANALYSIS_LENGTHS \
+                    or len(syms_e) != 1 or list(syms_e)[0] not in ANALYSIS_LENGTHS:
+                continue
+            n_obl += 1
+            # worst case: the required field equals the string length (single-line strings)
+            slack = emitted.get("", 0) - need.get("", 0)
+            op = cnd["op"]
+            okk = (slack >= 0) if op == ">=" else (slack > 0 if op == ">" else (slack == 0 and list(syms_n)[0] == list(syms_e)[0]))
+            key = "%s:success-test %s %s %s" % (w, v, op, show_lin(need))
+            if okk:
+                rule.ok(key, "emits %s characters; the test can be met by every string" % show_lin(emitted))
+            else:
+                rule.violation(fn.file, w, rt.get("l"), "success-test-unsatisfiable:%s" % w,
+                               "%s reports success only if `%s %s %s`, which with write_char's arguments is %s; the format emits %s "
+                               "characters, so for every single-line string (analysis.%s == length) the test fails and cif_write "
+                               "returns CIF_ERROR for a value it should write" % (
+                                   w, v, op, show(cnd.get("rhs")), show_lin(need), show_lin(emitted), list(syms_n)[0]))
+    return n_obl
+
+
+def show_lin(lf):
+    parts = ["%s%s" % ("" if c == 1 else "%d*" % c, k) for k, c in sorted(lf.items()) if k and c]
+    k = lf.get("", 0)
+    if k or not parts:
+        parts.append("%d" % k)
+    return " + ".join(parts).replace("+ -", "- ")
